@@ -9,6 +9,7 @@ import (
 	"os"
 	"sort"
 
+	"golang.org/x/tools/go/callgraph"
 	"golang.org/x/tools/go/ssa"
 )
 
@@ -46,6 +47,7 @@ type capCtx struct {
 	memoR   map[*ssa.Function]int
 	phiBusy map[*ssa.Phi]bool
 	why     string
+	cut     bool // the depth limit was hit somewhere below: a negative answer is not a fact and is not memoised
 }
 
 // boundedLeaf: value is bounded by construction.
@@ -414,7 +416,8 @@ func (cc *capCtx) leafCapped(l ssa.Value, at *ssa.BasicBlock, depth int) (res bo
 		}
 		return true
 	}
-	if depth > 8 {
+	if depth > 14 {
+		cc.cut = true
 		cc.why = "call depth exceeded while looking for a cap of " + l.Name()
 		return false
 	}
@@ -457,7 +460,19 @@ func (cc *capCtx) leafCapped(l ssa.Value, at *ssa.BasicBlock, depth int) (res bo
 		n := cc.a.p.CallGraph().Nodes[fn]
 		ok := n != nil && len(n.In) > 0
 		if n != nil {
-			for _, e := range n.In {
+			// the call graph's edge order is not stable between runs: visit the callers in source order
+			ins := append([]*callgraph.Edge{}, n.In...)
+			sort.SliceStable(ins, func(i, j int) bool {
+				pi, pj := token.NoPos, token.NoPos
+				if ins[i].Site != nil {
+					pi = ins[i].Site.Pos()
+				}
+				if ins[j].Site != nil {
+					pj = ins[j].Site.Pos()
+				}
+				return pi < pj
+			})
+			for _, e := range ins {
 				caller := e.Caller.Func
 				if e.Site == nil || !cc.reach[caller] {
 					continue
@@ -478,6 +493,8 @@ func (cc *capCtx) leafCapped(l ssa.Value, at *ssa.BasicBlock, depth int) (res bo
 		}
 		if ok {
 			cc.memoP[x] = 2
+		} else if cc.cut {
+			delete(cc.memoP, x) // failed because of the depth limit on this route: ask again from a shallower one
 		} else {
 			cc.memoP[x] = 3
 		}
@@ -539,6 +556,8 @@ func (cc *capCtx) resultCapped(callee *ssa.Function, idx int, call *ssa.Call, de
 	}
 	if ok {
 		cc.memoR[key] = 2
+	} else if cc.cut {
+		delete(cc.memoR, key)
 	} else {
 		cc.memoR[key] = 3
 	}
@@ -600,6 +619,8 @@ func (cc *capCtx) fieldCappedByType(t types.Type, st *types.Struct, field int, d
 	}
 	if ok {
 		cc.memoF[key] = 2
+	} else if cc.cut {
+		delete(cc.memoF, key)
 	} else {
 		cc.memoF[key] = 3
 	}
@@ -656,6 +677,7 @@ func (a *a6) caps() {
 				n++
 				okey := fmt.Sprintf("%s:alloc#%d", FnName(fn), k)
 				cc.why = ""
+				cc.cut = false
 				good := true
 				for _, s := range sizes {
 					if !cc.valueCapped(s, b, 0) {
